@@ -150,6 +150,22 @@ def run(res):
     except (gen_names.TranslateError, gen_x86sig.TranslateError, gen_x86forms.TranslateError) as e:
         broken.append("translator: " + str(e))
     ok, out = vlib.lean_stage(res, PID, MODS)
+    if not ok:
+        # the build stopped at a failing obligation: count the theorems from the sources so that the evidence still says
+        # how many there are and how many of them did not check in this run
+        thms, good = [], 0
+        failed_files = {str(ft.get("file")) for ft in (getattr(res, "build_failures", []) or [])}
+        for m in MODS:
+            rel = m.replace(".", "/") + ".lean"
+            t = vlib.theorems_in(vlib.LEAN / rel)
+            thms += t
+            # a module counts as discharged when lake built it in this run (the two property modules are independent)
+            if not any(rel in f for f in failed_files) and vlib.lake_build([m])[0]:
+                good += len(t)
+        failed = {ft.get("decl") for ft in (getattr(res, "build_failures", []) or [])}
+        res.coverage["obligations"] = len(thms)
+        res.coverage["discharged"] = good
+        res.coverage["obligations_failed"] = sorted(str(x) for x in failed)
     if not ok and not res.violations:
         for ft in getattr(res, "build_failures", []) or [{"decl": "?", "msg": out[-800:]}]:
             broken.append("theorem %s (%s:%s) no longer checks: %s" % (ft.get("decl"), ft.get("file"), ft.get("line"), ft.get("msg")))
